@@ -47,6 +47,11 @@ var constTypes = []constType{
 	{"smallmap", `{0:1,"k":2}`, `{0:1,"k":2}`, "1", `{0:1,"k":2.0}`},
 	{"bigmap", `{0:1,1:2,2:3,3:4,"a":5,"k":6}`, `{0:1,1:2,2:3,3:4,"a":5,"k":6}`, "1", `{0:1.0,1:2,2:3,3:4,"a":5,"k":6}`},
 	{"func", "func(x){x+1}", "func(x){x+1}", "", "func(x){x+1}"},
+	// representation x size mismatches (seeded change C19-5: a copy taken only when Len() > MaxSmallMap): a *BigMap holding FEW pairs
+	// (a literal with a repeated key is sized by its pair count; a large map shrunk by del and copied by + {}), and a short slice of a large array
+	{"bigrepmap", `{0:0,0:1,1:2,"a":5,"k":6}`, `{0:1,1:2,"a":5,"k":6}`, "1", `{0:1.0,1:2,"a":5,"k":6}`},
+	{"shrunkmap", `func(){m9 = {0:1,1:2,2:3,3:4,"a":5,"k":6}; del(m9[2]); del(m9[3]); del(m9.a); m9 + {}}()`, `{0:1,1:2,"k":6}`, "1", `{0:1.0,1:2,"k":6}`},
+	{"slicedarr", "[1,2,3,4,5,6,7,8,9,10][0:3]", "[1,2,3]", "1", "[1.0,2,3]"},
 	{"nestedbig", "[[1,2,3,4,5,6,7,8,9,10],{0:1,1:2,2:3,3:4,4:5}]", "[[1,2,3,4,5,6,7,8,9,10],{0:1,1:2,2:3,3:4,4:5}]", "[1,2,3,4,5,6,7,8,9,10]", "[[1,2,3,4,5,6,7,8,9,10],{0:1,1:2,2:3,3:4,4:5.0}]"},
 }
 
